@@ -3,6 +3,7 @@
    Statements only; proofs in ZonedProofs.v. *)
 From Coq Require Import ZArith List Bool.
 From EP Require Import Common.PyCalendar Gen.C11Helpers C11.Model C11.Zoned C11.ZonedProofs.
+From EP Require Gen.C11Shape.
 Import ListNotations.
 Open Scope Z_scope.
 
@@ -77,3 +78,10 @@ Example C11_zoned_nonvacuous :
   cmp_impl (Some (-300)) a b = Eq /\ cmp_impl None a b = Lt /\ sub_impl (Some (-300)) a b = 0 /\
   sub_impl None a b = - 18000000000 /\ cmp_old (Some (-300)) a b = Lt.
 Proof. vm_compute. repeat split; reflexivity. Qed.
+
+(* the statements of /repo that the zoned model mirrors (implicit timezone set on copies of the operands of comparisons, of the
+   minus operator and of min / max; AbstractDateTime._compare; adjust_datetime) are present in the source as read on this run
+   (T-data, harness/shape.py -> Gen/C11Shape.v) *)
+Theorem C11_source_shape : Gen.C11Shape.shape_ok = true.
+Proof. reflexivity. Qed.
+Print Assumptions C11_source_shape.
